@@ -194,6 +194,20 @@ impl BigNum {
         self.val == vec![0]
     }
 
+    /// Number of 32-bit limbs of the magnitude
+    ///
+    /// # Examples
+    ///
+    /// ```
+    /// use hyeong::number::big_number::BigNum;
+    ///
+    /// assert_eq!(1, BigNum::new(7).limbs());
+    /// assert_eq!(2, BigNum::from_vec(vec![0, 1]).limbs());
+    /// ```
+    pub fn limbs(&self) -> usize {
+        self.val.len()
+    }
+
     /// Returns to `u32` type
     ///
     /// # Assertions
